@@ -776,11 +776,24 @@ fn box_points(m: &SrcModel, ranges: &[(f64, f64)], seed: u64) -> Vec<Vec<f64>> {
         } else {
             (lo, hi)
         };
-        if !(lo_c <= hi_c) {
+        if !(lo_c <= hi_c) || lo_c == f64::INFINITY || hi_c == f64::NEG_INFINITY {
             return Vec::new(); // no assignment inside the box
         }
-        let lo_f = if lo_c.is_finite() { lo_c } else { -BIG };
-        let hi_f = if hi_c.is_finite() { hi_c } else { BIG };
+        // surrogate for an infinite side: far beyond the finite side (or the origin)
+        let lo_f = if lo_c.is_finite() {
+            lo_c
+        } else if hi_c.is_finite() {
+            hi_c.min(0.0) - BIG
+        } else {
+            -BIG
+        };
+        let hi_f = if hi_c.is_finite() {
+            hi_c
+        } else if lo_c.is_finite() {
+            lo_c.max(0.0) + BIG
+        } else {
+            BIG
+        };
         let mut c = vec![lo_f, hi_f];
         if lo_f < 0.0 && hi_f > 0.0 {
             c.push(0.0);
